@@ -31,10 +31,6 @@ from scanpipe import T, P, NS, q
 # Genuine defects of the unchanged code found by this check (reported to the integrator, who moves
 # them to known_findings.json or repairs the code).  Keys are per defect site, not per input.
 PENDING_FINDINGS = [
-    ('rename-chain',
-     "rename-to chain: with 'a: (rename-to b)' and 'b: (rename-to c)' visited in that order, c is written "
-     "shadowed-by=\"b\" but b is written shadowed-by=\"a\" only (its shadows=\"c\" is dropped by the writer's "
-     "elif): the shadows/shadowed-by pair is not mutually consistent"),
     ('rename-self',
      "'a: (rename-to a)' writes shadowed-by=\"a\" on a without a matching shadows attribute"),
     ('vfunc-own-block-overlaid',
@@ -271,8 +267,23 @@ def own_serial(el, top=True, in_field=False):
     return ''.join(parts)
 
 
+def own_refs(el, top=True):
+    """names of the types an element mentions in its own subtree: the boundary is that of own_serial
+    (separately addressed children are left out) but <parameters>/<return-value> are included"""
+    tag = short(el.tag)
+    out = set()
+    for c in el:
+        ct = short(c.tag)
+        if ct in ('type', 'array') and c.get('name'):
+            out.add(c.get('name'))
+        if ct in ADDRESSED and not (tag == 'field' and ct == 'callback'):
+            continue
+        out |= own_refs(c, False)
+    return out
+
+
 def extract(gir_text):
-    """GIR -> {address: {'tag', 'path', 'rec', 'serial', 'name'}}"""
+    """GIR -> {address: {'tag', 'path', 'rec', 'serial', 'name', 'refs'}}"""
     root = ET.fromstring(gir_text.encode('utf-8'))
     nsel = root.find(q('namespace'))
     out = {}
@@ -284,7 +295,7 @@ def extract(gir_text):
             a = '%s#%d' % (addr, n)
             n += 1
         d = {'tag': short(el.tag), 'path': list(path), 'rec': own_record(el), 'serial': own_serial(el),
-             'name': el.get('name')}
+             'name': el.get('name'), 'refs': sorted(own_refs(el))}
         d.update(extra)
         out[a] = d
         return a
@@ -482,8 +493,10 @@ def compare_model(real, mrecs, base_elems):
             diffs.append((addr, 'model: introspectable=0 (skip), GIR: introspectable'))
         if ri == '0' and mi != '0':
             b = base_elems.get(addr) if base_elems else None
+            # IntrospectablePass (C05) clears the flag of whatever mentions a skipped type -- in its own
+            # type, its parameters, its return value, or (a field) the callback it holds
             derived = (b is not None and b['rec']['attrs'].get('introspectable') == '0') or \
-                any(('name="%s"' % t) in el['serial'].replace("'", '"') for t in skipped_types) or \
+                any(t in el.get('refs', ()) for t in skipped_types) or \
                 any(p in real['elems'] and real['elems'][p]['rec']['attrs'].get('introspectable') == '0'
                     for p in el['path'])
             if not derived:
@@ -790,9 +803,6 @@ def judge_rename(ctx, cnt, spec, real, case_id):
             if len(srcs) != 1:
                 if sym in intents and intents[sym] == sym:
                     key = 'rename-self'
-                elif any(t == sym and s in intents.values() or (t == sym and s in intents and sym in intents)
-                         for s, t in intents.items()):
-                    key = 'rename-chain'
                 else:
                     key = 'rename-pair:%s:%s' % (case_id, sym)
                 ctx.report_failure(key, '%s is written shadowed-by=%r but no function named %r that was asked to '
@@ -1336,7 +1346,7 @@ def work(task):
             out['request'], out['nodes'] = req, nodes
         else:
             out['elems'] = dict((a, {'rec': e['rec'], 'tag': e['tag'], 'name': e['name'], 'path': e['path'],
-                                     'serial': e['serial']}) for a, e in real['elems'].items())
+                                     'serial': e['serial'], 'refs': e['refs']}) for a, e in real['elems'].items())
             if any(e['rec']['attrs'].get('introspectable') == '0' for e in real['elems'].values()):
                 base = run_real(dict(cfg, comments=[]))
                 out['base'] = dict((a, {'rec': e['rec']}) for a, e in base.get('elems', {}).items())
